@@ -586,9 +586,10 @@ def run(chk: Check):
         owners.append(("syn", case))
         src = case["src"]
         chk.case(("syn", case), src.count("\n") >= 1 or "\t" in src or case["line_range"] is not None)
-    workdir = os.path.join(VERIF, ".work", "c%d" % os.getpid())
-    shutil.rmtree(workdir, ignore_errors=True)
-    os.makedirs(workdir)
+    # generated modules live in a short-lived directory with a SHORT path: the traceback frame header
+    # (path:line in function) must fit the narrow traceback widths, wherever /verif is checked out
+    import tempfile
+    workdir = tempfile.mkdtemp(prefix="c", dir="/tmp")
     try:
         for case in tb_cases:
             for rec in run_traceback(case, workdir):
